@@ -18,7 +18,7 @@ PROPERTIES_V = 'theories/C05/Properties.v'
 IMPORTS = 'Require Import FV.Base.F64 FV.Base.PyVal FV.C01.Model FV.Gen.C05 FV.C05.Model FV.C05.ModelCb FV.C05.Run.'
 CASE_TYPE = 'case'
 CHECK = 'check_case'
-SHARD_SIZE = 115
+SHARD_SIZE = 122
 RULE = ('a case = 1..2 real modules with 1..4 parameters drawn from a catalogue of 9 datatypes (double limited/unlimited, int, '
         'bool, enum, string, array of int, struct, tuple), each with its own export / update_unchanged setting '
         '(always, never, default through module or general setting, explicit interval) and initial state (default, value, '
@@ -33,7 +33,12 @@ RULE = ('a case = 1..2 real modules with 1..4 parameters drawn from a catalogue 
         'real Dispatcher.handle_activate (whole node / module / module:parameter), handle_deactivate, remove_connection / '
         'reset_connection for connections that are or are not activated when the history starts, concurrently with the '
         'driver threads; two small scenario families (activation racing with updates; a connection leaving during a '
-        'fan-out) are explored systematically.  About a third of the single-thread cases (1..3 modules, up to 5 parameters, '
+        'fan-out) are explored systematically.  Request threads: client `read` / `change` requests go through the real '
+        'Dispatcher.handle_read / handle_change (wrapped read_ / write_, then the reply built with pobj.export_value() outside '
+        'updateLock, a scheduler switch inside the datatype conversion of the reply value) racing with driver updates, '
+        'with long omit intervals and repeated values (value stored, not announced), followed by the activation of a fresh '
+        'connection; a third scenario family (reply under construction while a driver assigns, then activation) is '
+        'explored systematically.  About a third of the single-thread cases (1..3 modules, up to 5 parameters, '
         'followers sharing parameter names) and a quarter of the threaded ones carry parameter callbacks registered through '
         'the real Module.addCallback (with/without extra arguments, callables accepting (value, err) or the value only) and '
         'Module.registerCallbacks (update_<param> methods of a follower, autoupdate = the follower\'s announceUpdate); every '
@@ -53,11 +58,13 @@ ASSUMPTIONS = [
     'loop and is not considered); callbacks calling announceUpdate (nested funnel) are generated in single-thread cases only '
     '(in threaded cases callbacks return or raise: the concurrent model has no nested regions); registerCallbacks chains are '
     'acyclic (a module follows a module with a smaller index), nested announcements of scripted callbacks are finite trees',
-    'handle_activate / handle_deactivate / remove_connection are called directly by the connection threads (not through '
+    'handle_read / handle_change / handle_activate / handle_deactivate / remove_connection are called directly by the connection threads (not through '
     'handle_request, whose dispatcher-wide lock would serialise requests): more interleavings than a real server has',
     'threads are preempted only at synchronisation points (lock acquire, fake driver entry, time.time(), send_reply, '
-    'the add() of a subscriber set in handle_activate, a harness yield before handle_deactivate / remove_connection)',
+    'the add() of a subscriber set in handle_activate, inside the datatype conversion of a reply value, a harness yield before handle_deactivate / remove_connection)',
     'fake connections hash to their index, so listener sets are iterated in index order (up to 4 connections)',
+    'change requests carry scalar canonical values that the dispatcher-side import_value + validate give back unchanged; '
+    'the cached value of the oracle is exported with the datatype itself, not through Parameter.export_value',
     'value equality of the property = python == on the exported values (so a silent 0.0 -> -0.0 change within the omit interval is not reported)',
 ]
 
@@ -135,6 +142,10 @@ class _Env:
         self.cbreg = []        # per parameter: identities of the registered callbacks, in order
         self.autocx = []       # [path, conversion data] of the announceUpdate calls made by autoupdate callbacks
         self.cbrun = []        # kinds of the callback invocations that happened
+        self.orig_export = {}  # id(datatype) -> its own export_value (the harness wraps it with a scheduler switch)
+        self.replying = {}     # thread ident -> [ti, oi] while the thread is inside handle_read / handle_change
+        self.curpos = {}       # thread ident -> [ti, oi] of the op in progress
+        self.marks = {}        # (ti, oi) -> number of park points inside the conversion of the reply value
         env = self
 
         class SecNode:
@@ -291,7 +302,10 @@ def _cell(env, pobj):
         e = {'cls': type(err).__name__, 'msg': err.args[0] if len(err.args) == 1 else repr(err.args), 'oid': oid,
              'name': err.name, 'text': str(err)}
     try:
-        xv = G.tag(pobj.export_value())
+        # the exported form of the CACHED value, computed with the datatype itself (not through Parameter.export_value:
+        # the cache is pobj.value, whatever that method may keep besides it)
+        dt = pobj.datatype
+        xv = G.tag(env.orig_export.get(id(dt), dt.export_value)(pobj.value))
     except Exception as ex:          # export of a raw cached value may fail: recorded as data
         xv = ['opaque', type(ex).__name__]
     return {'v': G.tag(pobj.value), 'err': e, 'ts': _ticks(pobj.timestamp or 0), 'xv': xv}
@@ -567,6 +581,23 @@ def run_case(case):
                 m.updateLock.name = f'U{mi}'
             mods.append(m)
         pobjs = [mods[p['mod']].parameters[p['name']] for p in case['params']]
+        if sched is not None:
+            # a scheduler switch inside the conversion of a value that a request thread exports for its REPLY (the
+            # dispatcher builds it outside updateLock); conversions inside announceUpdate / handle_activate are left alone
+            for po in pobjs:
+                dt = po.datatype
+                if id(dt) in env.orig_export:
+                    continue
+                env.orig_export[id(dt)] = dt.export_value
+
+                def export_value(value, _orig=dt.export_value):
+                    tid = threading.get_ident()
+                    pos = env.replying.get(tid)
+                    if pos is not None and not env.setup and not env.frames.get(tid):
+                        env.marks[tuple(pos)] = env.marks.get(tuple(pos), 0) + 1
+                        sched.switch('export')
+                    return _orig(value)
+                dt.export_value = export_value
         index = {}
         for pi, (p, po) in enumerate(zip(case['params'], pobjs)):
             if po.export:
@@ -645,6 +676,19 @@ def run_case(case):
 
         def do(op, mod, pname):
             k = op['k']
+            if op.get('req'):
+                # a client request: Dispatcher.handle_read / handle_change (reply built outside updateLock)
+                po = pobjs[op['p']]
+                spec = f"{mod.name}:{po.export}"
+                tid = threading.get_ident()
+                env.replying[tid] = env.curpos[tid]
+                try:
+                    if k == 'read':
+                        return env.dispatcher.handle_read(env.conns[0], spec, None)
+                    wire = env.orig_export[id(po.datatype)](G.untag(op['v']))
+                    return env.dispatcher.handle_change(env.conns[0], spec, wire)
+                finally:
+                    env.replying[tid] = None
             if k in ('read', 'readvia'):
                 return getattr(mod, 'read_' + pname)()
             if k == 'write':
@@ -674,6 +718,7 @@ def run_case(case):
         def worker(ti):
             for oi, op in enumerate(case['threads'][ti]):
                 env.cur[threading.get_ident()] = op
+                env.curpos[threading.get_ident()] = [ti, oi]
                 if op['k'] not in CONN_OPS:
                     tgt = [op['q'], op['p']] if op['k'] == 'readvia' else [op['p']]
                     env.next_frames[threading.get_ident()] = [
@@ -722,6 +767,7 @@ def run_case(case):
         obs['quiet'] = quiet
         obs['autocx'] = env.autocx
         obs['cbrun'] = env.cbrun
+        obs['marks'] = [[ti, oi, n] for (ti, oi), n in sorted(env.marks.items())]
         return obs
     finally:
         mb.time = saved_time
@@ -859,10 +905,12 @@ def encode(case, obs):
     progs = flat_ops(case)
     kinds = reg_kinds(case)
     autocx = {json.dumps(path): cx for path, cx in obs.get('autocx') or []}
+    marks = {(ti, oi): n for ti, oi, n in obs.get('marks') or []}
     scripts = [[('CNil' if o['k'] in CONN_OPS else enc_cbs(case, kinds, autocx, o['p'], o.get('cbs') or [], o['path']))
                 for o in l] for l in progs]
     return ('{| k_general := %s; k_params := %s; k_conns := %s; k_nmods := %s; k_init := %s; k_now := %s; k_progs := %s; '
-            'k_sched := %s; k_threaded := %s; k_msgs := %s; k_final := %s; k_regs := %s; k_cbobs := %s; k_cbs := %s |}' % (
+            'k_sched := %s; k_threaded := %s; k_msgs := %s; k_final := %s; k_regs := %s; k_cbobs := %s; k_cbs := %s; '
+            'k_marks := %s |}' % (
                 gal.z(case['general']), gal.lst(params, str), gal.lst(case['conns'], enc_scope), gal.nat(len(case['mods'])),
                 gal.lst(obs['init'], enc_cell), gal.z(obs['now0']),
                 gal.lst(progs, lambda l: gal.lst(l, enc_job)), gal.lst(obs['decisions'], gal.nat),
@@ -870,7 +918,9 @@ def encode(case, obs):
                 gal.lst(obs['conns'], lambda l: gal.lst(l, enc_msg)), gal.lst(obs['final'], enc_final),
                 gal.lst(case.get('cbregs') or [], lambda r: enc_reg(case, r)),
                 gal.lst(obs.get('cbreg') or [[] for _ in case['params']], lambda l: gal.lst(l, enc_kind)),
-                gal.lst(scripts, lambda l: gal.lst(l, str))))
+                gal.lst(scripts, lambda l: gal.lst(l, str)),
+                gal.lst([[(marks.get((o['path'][0], o['path'][1]), 0) if o['k'] not in CONN_OPS and o['path'][2] == 0 else 0)
+                          for o in l] for l in progs], lambda l: gal.lst(l, gal.nat))))
 
 
 def model_result_term(case, obs):
@@ -1075,12 +1125,14 @@ def outcome_labels(case, obs):
     labs = [f"threads={len(case['threads'])}"]
     for ops in case['threads']:
         for op in ops:
-            labs.append('op=' + op['k'] + (':' + op['res'][0] if op.get('res') else '')
+            labs.append('op=' + ('request-' if op.get('req') else '') + op['k'] + (':' + op['res'][0] if op.get('res') else '')
                         + (':' + op['sc'][0] if op.get('sc') else ''))
     for r in case.get('cbregs') or []:
         labs.append('register=' + ('addCallback' if r['k'] == 'add' else 'registerCallbacks'))
     for k in obs.get('cbrun') or []:
         labs.append('callback=' + k)
+    for _ in obs.get('marks') or []:
+        labs.append('reply-built-by-request-thread')
     post = sum(len(c) for c in obs.get('conns', [])) - sum(obs.get('snap', []))
     labs.append('messages=' + ('0' if post == 0 else '1-5' if post <= 5 else '6+'))
     for c in obs.get('conns', []):
@@ -1395,11 +1447,96 @@ def rand_conn_case(rng):
     return case
 
 
+# ---- request threads: read / change requests through the dispatcher, replies built outside updateLock
+def _change_ok(p, v):
+    """can `change <p> <export of v>` be told to the model as the wrapped write_ method called with v: scalar datatype,
+    v canonical, and the dispatcher's import_value + validate give v back"""
+    if p['d']['t'] not in ('float', 'int', 'bool', 'string') or (v[0] == 'float' and v[1] == 'nan'):
+        return False
+    try:
+        dt = G.build(p['d'])
+        x = G.untag(v)
+        if G.tag(dt(x)) != v:
+            return False
+        return G.tag(dt.validate(dt.import_value(dt.export_value(x)))) == v
+    except Exception:
+        return False
+
+
+def add_requests(rng, case, prob=0.6):
+    """turn wrapped reads / writes of exported parameters into client requests"""
+    n = 0
+    for ops in case['threads']:
+        for op in ops:
+            if op['k'] not in ('read', 'write') or not case['params'][op['p']]['export'] or rng.random() > prob:
+                continue
+            if op['k'] == 'write' and not _change_ok(case['params'][op['p']], op['v']):
+                continue
+            op['req'] = True
+            n += 1
+    return n
+
+
+def rand_req_case(rng):
+    """request threads racing with driver updates, then (or meanwhile) a fresh connection activates.  Values repeat
+    and omit intervals are long, so that reads are stored without being announced (the reply then is the first export
+    of the stored value)"""
+    for _ in range(50):
+        case = rand_conn_case(rng)
+        for p in case['params']:
+            if rng.random() < 0.6:
+                p['uu'] = rng.choice([16, 16, 'never'])
+                if p['export'] is False:
+                    p['export'] = True
+        # reads repeat what is cached / was assigned before
+        vals = {}
+        for ops in case['threads']:
+            for op in ops:
+                if op['k'] in CONN_OPS:
+                    continue
+                if op['k'] in ('assign', 'write') or (op['k'] == 'read' and op['res'][0] == 'ret'):
+                    v = op['v'] if op['k'] != 'read' else op['res'][1]
+                    if op['k'] == 'read' and vals.get(op['p']) and rng.random() < 0.6:
+                        op['res'] = ['ret', rng.choice(vals[op['p']])]
+                    else:
+                        vals.setdefault(op['p'], []).append(v)
+                op['dt'] = rng.choice([0, 1, 1])
+        if 'none' not in [sc[0] for sc in case['conns']]:
+            case['conns'].append(['none'])
+        fresh = [i for i, sc in enumerate(case['conns']) if sc[0] == 'none'
+                 and not any(op.get('c') == i for ops in case['threads'] for op in ops)]
+        if fresh:
+            act = {'k': 'activate', 'c': fresh[0], 'sc': rng.choice([['all'], ['all'], rand_scope(rng, case)])}
+            if rng.random() < 0.5:
+                case['threads'][rng.randrange(len(case['threads']))].append(act)
+            else:
+                case['threads'].append([act])
+        if add_requests(rng, case):
+            return case
+    return case
+
+
 def scenario_base(rng, kind):
     """small bases for the systematic exploration of the two races the multi-thread clause is about:
     'activate': a connection is being activated while driver threads change parameters;
     'leave': a connection deactivates / is removed while an update is being fanned out"""
     fl = {'t': 'float', 'min': _f(-100), 'max': _f(100)}
+    if kind == 'reply':
+        # a client reads (or changes) a parameter whose value is stored but not announced again (omitted as unchanged),
+        # so the reply is the first export of the stored object, built outside updateLock; a driver thread changes the
+        # parameter meanwhile; afterwards a fresh connection activates
+        case = {'general': 0, 'mods': [{'name': 'ma', 'omit': None}], 'conns': [['none'], ['all']],
+                'params': [{'mod': 0, 'name': 'pa', 'd': fl, 'export': True, 'uu': rng.choice([16, 'never']),
+                            'has_write': True, 'init': ['default', G.tag(1.0)]}],
+                'threads': [], 'sched': {'kind': 'explicit', 'decisions': []}}
+        if rng.random() < 0.7:
+            req = {'k': 'read', 'p': 0, 'res': ['ret', G.tag(5.0)], 'dt': 1, 'req': True}
+        else:
+            req = {'k': 'write', 'p': 0, 'v': G.tag(5.0), 'res': ['ret', G.tag(5.0)], 'dt': 1, 'req': True}
+        act = {'k': 'activate', 'c': 0, 'sc': rng.choice([['all'], ['par', 0]])}
+        case['threads'] = [[{'k': 'assign', 'p': 0, 'v': G.tag(5.0), 'dt': 1}, req, act],
+                           [{'k': 'assign', 'p': 0, 'v': G.tag(10.0), 'dt': 1}]]
+        return case
     nmods = rng.choice([1, 2]) if kind == 'activate' else 1
     case = {'general': 0, 'mods': [{'name': MODNAMES[i], 'omit': None} for i in range(nmods)], 'params': [], 'conns': [],
             'threads': [], 'sched': {'kind': 'explicit', 'decisions': []}}
@@ -1471,6 +1608,7 @@ def gen_cases(seed, tier):
     rng = random.Random(f'C05-{seed}-{tier}')
     n1, n2, n3, nsys, lim = {'quick': (1000, 250, 300, 2, 50), 'thorough': (8000, 1600, 1600, 8, 150),
                               'search': (6000, 2500, 2500, 8, 200)}[tier]
+    n4 = {'quick': 100, 'thorough': 1200, 'search': 2000}[tier]
     # about a third of the single-thread cases and a quarter of the threaded ones carry parameter callbacks
     c1, c2, c3 = (n1 * 35) // 100, n2 // 4, n3 // 5
     cases = [rand_case(rng, 1) for _ in range(n1 - c1)]
@@ -1479,6 +1617,7 @@ def gen_cases(seed, tier):
     cases += [rand_cb_case(rng, rng.choice([2, 2, 3])) for _ in range(c2)]
     cases += [rand_conn_case(rng) for _ in range(n3 - c3)]
     cases += [rand_cb_case(rng, conn=True) for _ in range(c3)]
+    cases += [rand_req_case(rng) for _ in range(n4)]
     for _ in range(nsys):
         base = rand_case(rng, 2, 3)
         for t in base['threads']:
@@ -1486,7 +1625,7 @@ def gen_cases(seed, tier):
         base['sched'] = {'kind': 'explicit', 'decisions': []}
         cases.extend(_explore(base, 2, lim))
     # the two races of the multi-thread clause, systematically (all schedules with <= 2 preemptions, up to lim)
-    for kind in ('activate', 'leave') * (1 if tier == 'quick' else 3):
+    for kind in ('activate', 'leave', 'reply') * (1 if tier == 'quick' else 3):
         cases.extend(_explore(scenario_base(rng, kind), 2, lim))
     return cases
 
